@@ -52,4 +52,17 @@ AnyWidthOK(kind, items, len, s, e, n, missing, oob, out) ==
        \/ out[j] = Fill(missing)
        \/ ((s < 0 \/ e > len) /\ out[j] = Fill(oob))
        \/ (vals # {} /\ out[j][2] = 0 /\ M * SetMin(vals) <= out[j][1] /\ out[j][1] <= M * SetMax(vals))
+
+\* exact = False, the default of values(): bins are interpolated from the closest zoom level when one is coarse enough (to_array_zoom /
+\* to_entry_array_zoom), otherwise computed as in exact mode.  The documentation fixes no numbers for this mode; what must hold of ANY
+\* summary of the data: the call returns n bins, each is a fill value or lies within the range of the signal on the chromosome (for
+\* bigBed the depth, which is 0 where nothing lies), and nothing is NaN when the data and the fill values are finite.
+ZoomModeOK(kind, items, len, s, e, n, missing, oob, out) ==
+  LET ps == {p \in 0..(len - 1) : SignalAt(kind, items, p)[1]}
+      vals == {SignalAt(kind, items, p)[2] : p \in ps} \cup (IF kind = "bb" THEN {0} ELSE {}) IN
+  /\ Len(out) = n
+  /\ \A j \in 1..n :
+       \/ out[j] = Fill(missing)
+       \/ ((s < 0 \/ e > len) /\ out[j] = Fill(oob))
+       \/ (vals # {} /\ out[j][2] = 0 /\ M * SetMin(vals) <= out[j][1] /\ out[j][1] <= M * SetMax(vals))
 =============================================================================
